@@ -34,8 +34,8 @@ type C20Plan struct {
 func genC20(r *sim.Rng, tier string) any {
 	p := &C20Plan{}
 	// a few codes so that waiters and requests meet; plus codes around the table boundary
-	codes := []int{11, 11, 13, 17, 19, 22, 27, 35, 0, 39, 40, 41, 100, 255, r.Intn(256)}
-	hot := []int{codes[r.Intn(8)], codes[r.Intn(8)]}
+	codes := []int{11, 13, 17, 19, 22, 27, 32, 34, 35, 2, 0, 39, 40, 41, 100, 255, r.Intn(256)}
+	hot := []int{codes[r.Intn(11)], codes[r.Intn(11)]}
 	pickCode := func() int {
 		if r.Bool(0.6) {
 			return hot[r.Intn(2)]
